@@ -75,13 +75,13 @@ def parse_cell_h(cpath, nd):
     j = 0
     lev = {"version": int(C[0]), "how": int(C[1]), "ncomp": int(C[2]), "nghost": int(C[3])}
     j = 4
-    mm = re.match(r"^\((\d+) (\d+)$", C[j])
+    mm = re.match(r"^\s*\(\s*(\d+)\s+(\d+)\s*$", C[j])
     if not mm:
         raise ParseError("box count line")
     n = int(mm.group(1)); j += 1
     idx = []
     for b in range(n):
-        mm = re.match("^" + BOXRE + "$", C[j]); j += 1
+        mm = re.match(r"^\s*" + BOXRE.replace(") \\(", r")\s*\(") + r"\s*$", C[j]); j += 1
         if not mm:
             raise ParseError("index line")
         lo, hi = ints(mm.group(1)), ints(mm.group(2))
@@ -96,7 +96,7 @@ def parse_cell_h(cpath, nd):
     j += 1
     fod = []
     for b in range(n):
-        mm = re.match(r"^FabOnDisk: (\S+) (\d+)$", C[j]); j += 1
+        mm = re.match(r"^\s*FabOnDisk:\s+(\S+)\s+(\d+)\s*$", C[j]); j += 1
         if not mm:
             raise ParseError("FabOnDisk line")
         fod.append((mm.group(1), int(mm.group(2))))
